@@ -172,6 +172,9 @@ class Ctx:
         if kf and (self.pid, kf) in self.known:
             h = self.kf_hits.setdefault(kf, [0, None])
             h[0] += 1
+            if os.environ.get("VERIF_KFDUMP") and h[0] <= 40:       # (debugging aid: keep the inputs that hit a recorded finding)
+                with open(os.path.join(common.OUT, "kf_examples.jsonl"), "a") as f:
+                    f.write(json.dumps({"kf": kf, "clause": clause, "case": case.get("case"), "detail": str(detail)[:400], "options": case.get("options")}, default=str) + "\n")
             if h[1] is None:
                 h[1] = {"clause": clause, "case": _slim(case)}
         else:
